@@ -27,6 +27,8 @@ pub struct Fault {
     /// index (0-based, counted from the moment the plan is armed) of the call that fails
     pub at: u64,
     pub persistent: bool,
+    /// the injected error has kind `UnexpectedEof` (what a medium that lost its tail reports) instead of `Other`
+    pub as_eof: bool,
 }
 
 #[derive(Clone, Debug, Default)]
@@ -234,6 +236,9 @@ impl Inner {
                 self.fired += 1;
                 if self.fire_site.is_none() {
                     self.fire_site = Some(site_signature());
+                }
+                if f.as_eof {
+                    return Err(io::Error::new(io::ErrorKind::UnexpectedEof, format!("injected {:?} fault (end-of-file kind) at call {}", kind, idx)));
                 }
                 return Err(injected(kind, idx));
             }
